@@ -375,6 +375,24 @@ def check_fields(prog, res, prop="C08", floor=309):
             me, why_e = extract_encode(prog, fe)
         except Exception as ex:   # fail closed with the reason
             md, why_d, me, why_e = None, "exception %r" % ex, None, ""
+        if prop == "C02":
+            # decode side only (finite decoded values): an encoder that no longer matches its template is not this property's concern
+            res.ob("O-extract", "%s | decoder matches the field template" % fid, md is not None, "decode: %s" % why_d, fd.loc)
+            if md is None:
+                continue
+            fp = float_params(md["dt"])
+            if fp is not None:
+                nfloat += 1
+                t, minnormal, maxfinite = fp
+                u = Fraction(1, 2 ** t)
+                lo, hi = pattern_range(md["kind"], md["W"])
+                pmax = max(abs(lo), abs(hi))
+                c = fconst(md["c"]) if md["c"] is not None else Fraction(1)
+                b = fconst(md["b"]) if md["b"] is not None else Fraction(0)
+                okn = c != 0 and abs(c) >= minnormal and (pmax * abs(c) * (1 + u) + abs(b)) * (1 + u) < maxfinite
+                res.ob("F-fin", "%s | every decoded value is finite (no overflow, resolution is a normal number)" % fid, okn,
+                       "max magnitude %s" % float(pmax * abs(c) + abs(b)), fd.loc, sample={"field": fid, "max": float(pmax * abs(c) + abs(b))} if fid == "df166_8" else None)
+            continue
         res.ob("O-extract", "%s | codec matches the field templates" % fid, md is not None and me is not None,
                "decode: %s ; encode: %s" % (why_d, why_e), fd.loc)
         if md is None or me is None:
